@@ -318,6 +318,17 @@ def c10_programs(seed, tier):
     for bad in ("", "xmlns", "a b", "ä"):
         out.append(prog(f"regext_bad_{len(out)}", [new(), {"op": "ext", "ns": bad, "url": "http://x", "nameok": False}, FIN]))
     out.append(prog("regext_dup", [new(), {"op": "ext", "ns": "e", "url": "http://x"}, {"op": "ext", "ns": "e", "url": "http://y"}, FIN]))
+    # prototypes at the capacity of a data packet: a point that just fits, one that does not (add_pointcloud must say so:
+    # nothing could ever be written), and so many records that the capacity arithmetic itself goes below zero
+    def big(name, nrec, t):
+        proto = [X, Y, Z] + [rec(f"f{i}", t, *((0, 1) if t == "int" else ()), ns="e") for i in range(nrec)]
+        pts = [default_point(proto, k) for k in range(2)]
+        out.append(prog(name, [new(), {"op": "ext", "ns": "e", "url": "http://x/e"}, pc(proto, pts=pts), FIN]))
+    if tier == "thorough":
+        big("big_doubles_fit", 5900, "double")      # accepted: the file is decoded in full (minutes in TLC)
+    big("big_doubles_nofit", 5920, "double")
+    big("big_bits_nofit", 21000, "int")
+    big("big_bits_underflow", 21700, "int")
     # two prefixes bound to one URL name the same XML namespace: a record of the second prefix must not come back under the first
     out.append(prog("regext_same_url", [new(), {"op": "ext", "ns": "e1", "url": "http://x"}, {"op": "ext", "ns": "e2", "url": "http://x"},
                                         pc([X, Y, Z, rec("a", "int", 0, 9, ns="e2"), rec("b", "int", 0, 9, ns="e1")], pts=[default_point([X, Y, Z, inten, inten], k) for k in range(2)]), FIN]))
